@@ -92,6 +92,8 @@ var seeds = []struct {
 	{1, `{{ é }}{{ _a1 }}{{ 世界 }}`},
 	{1, "a\r\nb\n\rc{{ x }}"},
 	{1, "\xef\xbb\xbf{{ a }}"},
+	{1, "日bcdefghijkl{{ a }}abcdefghi日本語klmnopq"},
+	{0, "αβγδεζηθικλμνξοπρστυφχψω{{ a }}"},
 	{0, `plain {{ a }} <a href="{{ b }}"> {# c #} {% if x %}y{% end %}`},
 	{2, `a { b: "{{ s }}"; c: '{{ t }}\''; d: {{ v }} } </style> {{ x }}`},
 	{3, `var a = "{{ s }}\""; // {{ c }}` + "\n" + `/* {{ d }} */ var b = '{{ t }}'; </script> {{ x }}`},
